@@ -114,6 +114,11 @@ package processor
 //@   |  && p.state.vaaSignatures[h].retryCount >= old(p.state.vaaSignatures[h].retryCount)
 //@   |  && p.state.vaaSignatures[h].firstObserved == old(p.state.vaaSignatures[h].firstObserved))
 
+// the retry bookkeeping of an entry (time of the last retry, retry counter) is moved by the
+// cleanup pass only: no handler may postpone a retry or an expiry by touching it
+//@ pred retryClockKept(p *Processor) = forall h in dom(p.state.vaaSignatures) :: old(indom(p.state.vaaSignatures, h)) && p.state.vaaSignatures[h] == old(p.state.vaaSignatures[h]) ==>
+//@   | (p.state.vaaSignatures[h].lastRetry == old(p.state.vaaSignatures[h].lastRetry) && p.state.vaaSignatures[h].retryCount == old(p.state.vaaSignatures[h].retryCount))
+
 // ---------------------------------------------------------------- no-panic sweep over the handlers (C13)
 
 //@ func (p *Processor) broadcastSignedVAA(v *vaa.VAA)
@@ -139,6 +144,7 @@ package processor
 
 //@ func (p *Processor) handleObservation(ctx context.Context, m *gossipv1.SignedObservation)
 //@   props C01 C02 C03 C04 C07 C13 C14
+//@   ensures [retry-clock-only-moved-by-cleanup] retryClockKept(p)
 //@   ensures [progress-kept] progressKept(p)
 //@   ensures [reject-bad-signature] !old(len(m.Hash) == 32 && len(m.Signature) == 65 && ecrec_ok(from32(m.Hash), from65(m.Signature))) ==> untouched(p)
 //@   ensures [reject-address-mismatch] old(len(m.Hash) == 32 && len(m.Signature) == 65 && ecrec_ok(from32(m.Hash), from65(m.Signature)) && vaa.pk2addr(ecrec(from32(m.Hash), from65(m.Signature))) != b2a(m.Addr)) ==> untouched(p)
@@ -171,6 +177,7 @@ package processor
 
 //@ func (p *Processor) broadcastSignature(v *vaa.VAA, signature []byte, txhash []byte)
 //@   props C01 C02 C03 C04 C07 C13 C14
+//@   ensures [retry-clock-only-moved-by-cleanup] retryClockKept(p)
 //@   ensures [progress-kept] progressKept(p)
 //@   ensures [records-own-observation] indom(p.state.vaaSignatures, hexs(bytes32(vaa.digestOf(v)))) && p.state.vaaSignatures[hexs(bytes32(vaa.digestOf(v)))].ourVAA == v && p.state.vaaSignatures[hexs(bytes32(vaa.digestOf(v)))].gs == p.gs && p.state.vaaSignatures[hexs(bytes32(vaa.digestOf(v)))].ourMsg != nil
 //@   ensures [broadcasts-observation] nsent(p.sendC) == old(nsent(p.sendC)) + 1
@@ -194,6 +201,7 @@ package processor
 
 //@ func (p *Processor) handleMessage(ctx context.Context, k *common.MessagePublication)
 //@   props C01 C02 C03 C04 C07 C13 C14
+//@   ensures [retry-clock-only-moved-by-cleanup] retryClockKept(p)
 //@   ensures [progress-kept] progressKept(p)
 //@   ensures [governance-never-signed] old(k.EmitterAddress == p.governanceEmitterAddress && k.EmitterChain == p.governanceChainId) ==> unchanged("chan") && unchanged("vaaState.*") && unchanged("map[string]*vaaState")
 //@   ensures [dropped-without-set] old(p.gs) == nil ==> unchanged("chan") && unchanged("vaaState.*") && unchanged("map[string]*vaaState")
@@ -213,6 +221,7 @@ package processor
 
 //@ func (p *Processor) handleInjection(ctx context.Context, v *vaa.VAA)
 //@   props C01 C02 C03 C04 C07 C13 C14
+//@   ensures [retry-clock-only-moved-by-cleanup] retryClockKept(p)
 //@   ensures [progress-kept] progressKept(p)
 //@   requires Inv(p) && v != nil
 //@   requires InvSig(p)
@@ -224,6 +233,7 @@ package processor
 
 //@ func (p *Processor) handleInboundSignedVAAWithQuorum(ctx context.Context, m *gossipv1.SignedVAAWithQuorum)
 //@   props C01 C02 C03 C04 C06 C07 C13 C14
+//@   ensures [retry-clock-only-moved-by-cleanup] retryClockKept(p)
 //@   ensures [progress-kept] progressKept(p)
 //@   ensures [never-publishes] unchanged("chan") && unchanged("vaaState.*") && unchanged("map[string]*vaaState")
 //@   requires Inv(p) && m != nil
